@@ -199,7 +199,8 @@ class LinSpec:
                 "meas": [[(j, s, round(c, 6)) for (j, s, c) in e["terms"]] + [round(e.get("const", 0.0), 6), bool(e.get("shock"))] for e in self.meas]}
 
     def to_json(self):
-        return {"n": self.n, "eqs": self.eqs, "meas": self.meas, "log": self.log, "name": self.name}
+        import copy
+        return {"n": self.n, "eqs": copy.deepcopy(self.eqs), "meas": copy.deepcopy(self.meas), "log": self.log, "name": self.name}
 
     @classmethod
     def from_json(cls, d):
